@@ -120,6 +120,16 @@ CLAIMED = {
         "DESIGN.md §4 C02",
         "exploration",
     ),
+    "C16": (
+        "differential: execute_string vs one-by-one execution on a twin, plus literal round trip; nop_regexes vs re.match oracle and plain twin",
+        "Generated statement lists with adversarial literals, separators, comments, empty statements and an optional failing statement are "
+        "run through execute_string and, on a twin, one by one (per-statement rows, descriptions, error, final snapshot compared; each "
+        "literal also compared with the Python string it denotes). Pattern sets x statements decide no-op vs normal behaviour against "
+        "re.match and a twin without the option. Exploration.",
+        "Literal contents exclude $word (C15 finding); nop matching is on the parameter-substituted text.",
+        "DESIGN.md §4 C16",
+        "exploration",
+    ),
 }
 
 NOT_YET = {}
